@@ -316,15 +316,16 @@ impl<T> RawTable<T> {
         if bucket.in_main {
             self.table.replace_bucket_with(bucket.bucket, f)
         } else if let Some(ref mut lo) = self.leftovers {
-            let items = &mut lo.items;
-            let b = bucket.bucket.clone();
-            lo.table.replace_bucket_with(b, move |t| {
-                let v = f(t);
-                if v.is_none() {
-                    items.reflect_remove(&bucket.bucket);
-                }
-                v
-            })
+            // hashbrown removes the element _before_ it calls `f`, and `reflect_remove` must be
+            // called before the removal (and `f` may panic), so tell the cached iterator up front.
+            // If the element is put back, the table is exactly as it was, so restore the iterator.
+            let saved = lo.items.clone();
+            lo.items.reflect_remove(&bucket.bucket);
+            let occupied = lo.table.replace_bucket_with(bucket.bucket, f);
+            if occupied {
+                lo.items = saved;
+            }
+            occupied
         } else {
             unreachable!("invalid bucket state");
         }
